@@ -138,7 +138,15 @@ def run_seq(case, mech):
     y0 = rand_state()
     if case.get('int_y0') and dtype == 'float64':
         # initial state given as whole numbers in an integer array (np.array([0, 1])), later records are floats
-        y0 = np.asarray(np.round(np.real(y0) * 3), dtype=np.int64)
+        kind_ = rnd.choice(['int64', 'int64', 'int32', 'uint8', 'bool'])
+        if kind_ == 'bool':
+            # (a state of flags, np.array([True, False]): promoted like the integer kinds)
+            y0 = np.asarray(np.real(y0) > 0)
+            mech['boolean_initial_state'] = mech.get('boolean_initial_state', 0) + 1
+        elif kind_ == 'uint8':
+            y0 = np.asarray(np.abs(np.round(np.real(y0) * 3)) % 200, dtype=np.uint8)
+        else:
+            y0 = np.asarray(np.round(np.real(y0) * 3), dtype=kind_)
         mech['integer_initial_state'] = mech.get('integer_initial_state', 0) + 1
     bounded = case['bounded']
     cap = None
@@ -149,7 +157,11 @@ def run_seq(case, mech):
         h = H(y0, t0=t0)
     sh = Shadow(y0, t0)
     # caller mutates y0 afterwards: must not alter the record
-    if y0.shape:
+    if y0.shape and y0.dtype.kind == 'b':
+        y0[...] = ~y0
+    elif y0.shape and y0.dtype.kind == 'u':
+        y0 += 50
+    elif y0.shape:
         y0 += 1000 if y0.dtype.kind in 'iu' else 1000.0
     else:
         y0 = y0 + 1000.0
